@@ -1,9 +1,74 @@
 use serde_json::Value;
 
 use crate::ConvertResult;
-use crate::lua_emitter::EmmyLuaEmitter;
+use crate::lua_emitter::{EmmyLuaEmitter, quote_lua_string, sanitize_type_name};
 use crate::markdown_doc::sanitize_description;
 use crate::schema_walker::SchemaWalker;
+
+/// A rendered type expression.
+///
+/// `atomic` says that the text can take a postfix (`?`, `[]`) or stand as a union member as it is;
+/// anything else is put in parentheses first, so that the postfix applies to the whole expression.
+#[derive(Clone)]
+struct LuaType {
+    text: String,
+    atomic: bool,
+    nullable: bool,
+}
+
+impl LuaType {
+    fn atom(text: impl Into<String>) -> Self {
+        Self {
+            text: text.into(),
+            atomic: true,
+            nullable: false,
+        }
+    }
+
+    fn any() -> Self {
+        Self::atom("any")
+    }
+
+    fn wrapped(&self) -> String {
+        if self.atomic {
+            self.text.clone()
+        } else {
+            format!("({})", self.text)
+        }
+    }
+
+    /// `a | b | ...`; an empty union is `any`.
+    fn union(mut members: Vec<LuaType>) -> Self {
+        match members.len() {
+            0 => Self::any(),
+            1 => members.remove(0),
+            _ => Self {
+                text: members
+                    .iter()
+                    .map(LuaType::wrapped)
+                    .collect::<Vec<_>>()
+                    .join(" | "),
+                atomic: false,
+                nullable: false,
+            },
+        }
+    }
+
+    fn optional(self) -> Self {
+        if self.nullable {
+            return self;
+        }
+        Self {
+            text: format!("{}?", self.wrapped()),
+            atomic: false,
+            nullable: true,
+        }
+    }
+
+    fn array(self) -> Self {
+        Self::atom(format!("{}[]", self.wrapped()))
+    }
+}
 
 /// Converts a JSON Schema document into LuaLS (EmmyLua) annotation strings.
 pub struct SchemaConverter {
@@ -52,29 +117,28 @@ impl SchemaConverter {
 
         // Emit aliases (enums)
         for (name, def_schema) in &alias_defs {
-            let prefixed = format!("{}{}", self.type_prefix, name);
+            let prefixed = self.type_name(name);
             self.emit_definition(&walker, &mut emitter, &prefixed, def_schema);
             emitter.blank_line();
         }
 
         // Emit classes from $defs
         for (name, def_schema) in &class_defs {
-            let prefixed = format!("{}{}", self.type_prefix, name);
+            let prefixed = self.type_name(name);
             self.emit_definition(&walker, &mut emitter, &prefixed, def_schema);
             emitter.blank_line();
         }
 
-        let mut root_type_name = "schema.root".to_string();
-        // Emit the root schema as a class
-        if let Some(title) = walker.root_title() {
-            root_type_name = format!("{}{}", self.type_prefix, title);
-            let root = walker.root_schema();
-            if root.get("properties").is_some() {
-                let prefixed = format!("{}{}", self.type_prefix, title);
-                self.emit_object_class(&walker, &mut emitter, &prefixed, root);
-                emitter.blank_line();
-            }
+        // Emit the root schema under the reported root type name: a class when it has
+        // properties, otherwise whatever kind of definition it is.
+        let root_type_name = self.type_name(walker.root_title().unwrap_or("root"));
+        let root = walker.root_schema();
+        if root.get("properties").is_some() {
+            self.emit_object_class(&walker, &mut emitter, &root_type_name, root);
+        } else {
+            self.emit_definition(&walker, &mut emitter, &root_type_name, root);
         }
+        emitter.blank_line();
 
         ConvertResult {
             annotation_text: emitter.finish(),
@@ -89,6 +153,11 @@ impl SchemaConverter {
     }
 
     // ── Internal helpers ──────────────────────────────────────────────
+
+    /// The prefixed type name for a definition or `$ref` target, as a valid doc name.
+    fn type_name(&self, name: &str) -> String {
+        sanitize_type_name(&format!("{}{}", self.type_prefix, name))
+    }
 
     /// Check if a schema definition is an enum/alias (not an object class).
     fn is_enum_or_alias(&self, schema: &Value) -> bool {
@@ -159,23 +228,30 @@ impl SchemaConverter {
             }
             let ty = self.resolve_type(walker, schema);
             emitter.write_alias_header(name);
-            emitter.write_alias_type_variant(&ty, None);
+            emitter.write_alias_type_variant(&ty.wrapped(), None);
         }
     }
 
     /// Emit `---@alias Name "v1" | "v2" | ...` from a simple `enum` array.
     fn emit_enum_alias(&self, emitter: &mut EmmyLuaEmitter, name: &str, values: &[Value]) {
         emitter.write_alias_header(name);
+        let mut written = false;
         for val in values {
             if let Some(s) = val.as_str() {
                 emitter.write_alias_variant(s, None);
+                written = true;
             }
+        }
+        if !written {
+            // an alias needs at least one member
+            emitter.write_alias_type_variant("any", None);
         }
     }
 
     /// Emit `---@alias Name` from `oneOf` with `const` values.
     fn emit_one_of_alias(&self, emitter: &mut EmmyLuaEmitter, name: &str, one_of: &[Value]) {
         emitter.write_alias_header(name);
+        let mut written = false;
         for item in one_of {
             let const_val = item.get("const").and_then(|v| v.as_str()).or_else(|| {
                 item.get("enum")
@@ -186,7 +262,11 @@ impl SchemaConverter {
             let desc = item.get("description").and_then(|v| v.as_str());
             if let Some(val) = const_val {
                 emitter.write_alias_variant(val, desc);
+                written = true;
             }
+        }
+        if !written {
+            emitter.write_alias_type_variant("any", None);
         }
     }
 
@@ -202,7 +282,10 @@ impl SchemaConverter {
         for item in one_of {
             let desc = item.get("description").and_then(|v| v.as_str());
             let ty = self.resolve_type(walker, item);
-            emitter.write_alias_type_variant(&ty, desc);
+            emitter.write_alias_type_variant(&ty.wrapped(), desc);
+        }
+        if one_of.is_empty() {
+            emitter.write_alias_type_variant("any", None);
         }
     }
 
@@ -214,8 +297,9 @@ impl SchemaConverter {
         name: &str,
         schema: &Value,
     ) {
+        emitter.write_alias_header(name);
+        let mut written = false;
         if let Some(any_of) = schema.get("anyOf").and_then(|v| v.as_array()) {
-            emitter.write_alias_header(name);
             for item in any_of {
                 let desc = item.get("description").and_then(|v| v.as_str());
                 // Skip null entries (they make the whole type nullable)
@@ -223,8 +307,12 @@ impl SchemaConverter {
                     continue;
                 }
                 let ty = self.resolve_type(walker, item);
-                emitter.write_alias_type_variant(&ty, desc);
+                emitter.write_alias_type_variant(&ty.wrapped(), desc);
+                written = true;
             }
+        }
+        if !written {
+            emitter.write_alias_type_variant("any", None);
         }
     }
 
@@ -256,7 +344,7 @@ impl SchemaConverter {
                 let desc = field_schema.get("description").and_then(|v| v.as_str());
                 let is_required = required.contains(&field_name.as_str());
                 let ty = self.resolve_field_type(walker, field_schema, !is_required);
-                emitter.write_field(field_name, &ty, desc);
+                emitter.write_field(field_name, &ty.text, desc);
             }
         }
 
@@ -264,8 +352,7 @@ impl SchemaConverter {
         if let Some(additional) = schema.get("additionalProperties") {
             if additional.is_object() {
                 let value_ty = self.resolve_type(walker, additional);
-                let index_ty = format!("[string] : {}", value_ty);
-                emitter.write_field(&index_ty, "", Some("Additional properties"));
+                emitter.write_index_field("string", &value_ty.text, Some("Additional properties"));
             }
         }
 
@@ -275,19 +362,17 @@ impl SchemaConverter {
     }
 
     /// Resolve a field's type, handling nullable and optional.
-    fn resolve_field_type(&self, walker: &SchemaWalker, schema: &Value, optional: bool) -> String {
-        let mut ty = self.resolve_type(walker, schema);
+    fn resolve_field_type(&self, walker: &SchemaWalker, schema: &Value, optional: bool) -> LuaType {
+        let ty = self.resolve_type(walker, schema);
 
         // Check if nullable from type array like ["string", "null"]
         let is_nullable = self.is_nullable(schema);
 
         if is_nullable || optional {
-            if !ty.ends_with('?') {
-                ty.push('?');
-            }
+            ty.optional()
+        } else {
+            ty
         }
-
-        ty
     }
 
     /// Check if a schema is nullable.
@@ -313,16 +398,16 @@ impl SchemaConverter {
 
     #[allow(clippy::only_used_in_recursion)]
     /// Resolve a schema node into a LuaLS type string.
-    fn resolve_type(&self, walker: &SchemaWalker, schema: &Value) -> String {
+    fn resolve_type(&self, walker: &SchemaWalker, schema: &Value) -> LuaType {
         // $ref → type name with prefix
         if let Some(ref_str) = schema.get("$ref").and_then(|v| v.as_str()) {
             let name = SchemaWalker::ref_type_name(ref_str).unwrap_or("any");
-            return format!("{}{}", self.type_prefix, name);
+            return LuaType::atom(self.type_name(name));
         }
 
         // anyOf → union type (excluding null)
         if let Some(any_of) = schema.get("anyOf").and_then(|v| v.as_array()) {
-            let types: Vec<String> = any_of
+            let types: Vec<LuaType> = any_of
                 .iter()
                 .filter(|item| item.get("type").and_then(|v| v.as_str()) != Some("null"))
                 .map(|item| self.resolve_type(walker, item))
@@ -330,45 +415,42 @@ impl SchemaConverter {
             let has_null = any_of
                 .iter()
                 .any(|item| item.get("type").and_then(|v| v.as_str()) == Some("null"));
-            let mut result = types.join(" | ");
-            if has_null {
-                result.push('?');
-            }
-            return result;
+            let result = LuaType::union(types);
+            return if has_null { result.optional() } else { result };
         }
 
         // oneOf → check if it's a string enum or union
         if let Some(one_of) = schema.get("oneOf").and_then(|v| v.as_array()) {
-            let types: Vec<String> = one_of
+            let types: Vec<LuaType> = one_of
                 .iter()
                 .filter(|item| item.get("type").and_then(|v| v.as_str()) != Some("null"))
                 .map(|item| {
                     if let Some(const_val) = item.get("const").and_then(|v| v.as_str()) {
-                        format!("\"{}\"", const_val)
+                        LuaType::atom(quote_lua_string(const_val))
                     } else {
                         self.resolve_type(walker, item)
                     }
                 })
                 .collect();
-            return types.join(" | ");
+            return LuaType::union(types);
         }
 
         // type field
         if let Some(type_val) = schema.get("type") {
             // Array type: ["string", "null"]
             if let Some(arr) = type_val.as_array() {
-                let types: Vec<String> = arr
+                let types: Vec<LuaType> = arr
                     .iter()
                     .filter_map(|t| t.as_str())
                     .filter(|t| *t != "null")
-                    .map(|t| self.json_type_to_lua(t))
+                    .map(|t| LuaType::atom(self.json_type_to_lua(t)))
                     .collect();
                 let has_null = arr.iter().any(|t| t.as_str() == Some("null"));
-                let mut result = types.join(" | ");
-                if has_null {
-                    result.push('?');
+                if has_null && types.is_empty() {
+                    return LuaType::atom("nil");
                 }
-                return result;
+                let result = LuaType::union(types);
+                return if has_null { result.optional() } else { result };
             }
 
             // Simple type
@@ -379,22 +461,22 @@ impl SchemaConverter {
                         let item_type = if let Some(items) = schema.get("items") {
                             self.resolve_type(walker, items)
                         } else {
-                            "any".to_string()
+                            LuaType::any()
                         };
-                        return format!("{}[]", item_type);
+                        return item_type.array();
                     }
                     "object" => {
                         // Object with additionalProperties
                         if let Some(additional) = schema.get("additionalProperties") {
                             if additional.is_object() {
                                 let value_ty = self.resolve_type(walker, additional);
-                                return format!("table<string, {}>", value_ty);
+                                return LuaType::atom(format!("table<string, {}>", value_ty.text));
                             }
                         }
-                        return "table".to_string();
+                        return LuaType::atom("table");
                     }
                     other => {
-                        return self.json_type_to_lua(other);
+                        return LuaType::atom(self.json_type_to_lua(other));
                     }
                 }
             }
@@ -402,20 +484,20 @@ impl SchemaConverter {
 
         // enum (string values only)
         if let Some(enum_values) = schema.get("enum").and_then(|v| v.as_array()) {
-            let variants: Vec<String> = enum_values
+            let variants: Vec<LuaType> = enum_values
                 .iter()
                 .filter_map(|v| v.as_str())
-                .map(|s| format!("\"{}\"", s))
+                .map(|s| LuaType::atom(quote_lua_string(s)))
                 .collect();
-            return variants.join(" | ");
+            return LuaType::union(variants);
         }
 
         // const
         if let Some(const_val) = schema.get("const").and_then(|v| v.as_str()) {
-            return format!("\"{}\"", const_val);
+            return LuaType::atom(quote_lua_string(const_val));
         }
 
-        "any".to_string()
+        LuaType::any()
     }
 
     /// Map JSON Schema primitive type names to Lua type names.
@@ -645,6 +727,78 @@ mod tests {
 
         let output = converter().convert(&schema).annotation_text;
         assert!(output.contains("---@field [\"$schema\"] string?"));
+    }
+
+    #[test]
+    fn test_names_and_literals_needing_escapes() {
+        let schema = json!({
+            "title": "My Config",
+            "type": "object",
+            "properties": {
+                "a\"b": { "type": "string" },
+                "x\ny": { "type": "integer" },
+                "e": { "enum": ["p\"q", "r"] }
+            },
+            "required": ["a\"b"]
+        });
+
+        let result = converter().convert(&schema);
+        let output = result.annotation_text;
+        assert_eq!(result.root_type_name, "schema.My_Config");
+        assert!(output.contains("---@class schema.My_Config\n"));
+        assert!(output.contains("---@field [\"a\\x22b\"] string\n"));
+        assert!(output.contains("---@field [\"x\\ny\"] integer?\n"));
+        assert!(output.contains("---@field e (\"p\\x22q\" | \"r\")?\n"));
+    }
+
+    #[test]
+    fn test_postfix_applies_to_whole_union() {
+        let schema = json!({
+            "title": "Config",
+            "type": "object",
+            "properties": {
+                "k": { "anyOf": [{ "type": "string" }, { "type": "number" }] },
+                "arr": {
+                    "type": "array",
+                    "items": { "anyOf": [{ "type": "string" }, { "type": "null" }] }
+                }
+            }
+        });
+
+        let output = converter().convert(&schema).annotation_text;
+        assert!(output.contains("---@field k (string | number)?\n"));
+        assert!(output.contains("---@field arr (string?)[]?\n"));
+    }
+
+    #[test]
+    fn test_additional_properties_index_signature() {
+        let schema = json!({
+            "title": "Config",
+            "type": "object",
+            "properties": {},
+            "additionalProperties": { "type": "number" }
+        });
+
+        let output = converter().convert(&schema).annotation_text;
+        assert!(output.contains("--- Additional properties\n---@field [string] number\n"));
+    }
+
+    #[test]
+    fn test_root_without_properties_and_empty_alias_are_declared() {
+        let schema = json!({
+            "$defs": { "E": { "enum": [1, 2] } },
+            "description": "first\rsecond\n@field x"
+        });
+
+        let result = converter().convert(&schema);
+        assert_eq!(result.root_type_name, "schema.root");
+        let output = result.annotation_text;
+        assert!(output.contains("---@alias schema.E\n---| any\n"));
+        assert!(
+            output.contains(
+                "--- first\n--- second\n--- \\@field x\n---@alias schema.root\n---| any\n"
+            )
+        );
     }
 
     #[test]
